@@ -198,3 +198,34 @@ pub mod pcs {
 //@end
     }
 }
+// ======================= Brakedown's systematic Reed-Solomon step (multilinear_brakedown/mod.rs) =======================
+// Horner evaluation of the segment cw[s..ie] (lowest coefficient first) at x, consumed from the top:  h(j) = sum_{i>=j} cw[i] x^(i-j)
+pub open spec fn rs_h(cw: Seq<Fr>, x: FS, j: int, ie: int) -> FS decreases ie - j { if j >= ie { f_zero() } else { f_add(f_mul(rs_h(cw, x, j + 1, ie), x), cw[j]@) } }
+#[verifier::external_body] pub fn vec_zero_n(len: usize) -> (r: Vec<Fr>) ensures r@.len() == len, forall|i: int| 0 <= i < len ==> (#[trigger] r@[i])@ == f_zero() { unimplemented!() }   // vec![F::zero(); len]
+// `dst[a..b].copy_from_slice(src)`  (length mismatch or out-of-range: abort)
+#[verifier::external_body] pub fn copy_into(dst: &mut Vec<Fr>, a: usize, b: usize, src: &Vec<Fr>)
+    ensures a <= b && b <= old(dst)@.len() && src@.len() == b - a, final(dst)@.len() == old(dst)@.len(),
+        forall|i: int| 0 <= i < old(dst)@.len() ==> final(dst)@[i] == (if a <= i < b { src@[i - a] } else { old(dst)@[i] }) { unimplemented!() }
+//@fn id=brakedown.naive_reed_solomon file=poly-commit/src/linear_codes/multilinear_brakedown/mod.rs scope=top name=naive_reed_solomon props=C13,C08
+fn naive_reed_solomon(cw: &mut Vec<Fr>, s: usize, ie: usize, oe: usize)
+    requires
+        s <= oe, s <= ie <= old(cw)@.len(),                 // (oe < s underflows, ie beyond the vector indexes out of range: abort)
+    ensures
+        oe <= old(cw)@.len() && final(cw)@.len() == old(cw)@.len(),
+        // positions s..oe receive the evaluations of the polynomial with coefficients cw[s..ie] at the points 1, 2, .., oe - s; everything else is untouched
+        forall|k: int| 0 <= k < oe - s ==> (#[trigger] final(cw)@[s + k])@ == rs_h(old(cw)@, f_from_nat((k + 1) as nat), s as int, ie as int),   // name=brakedown.naive_reed_solomon.evaluations_at_1_to_n props=C13,C08
+        forall|i: int| 0 <= i < old(cw)@.len() && !(s <= i < oe) ==> final(cw)@[i] == old(cw)@[i],   // name=brakedown.naive_reed_solomon.rest_untouched props=C13
+//@body
+//@rw 1 /let mut res = vec!\[F::zero\(\); oe - s\];/ => let mut res: Vec<Fr> = vec_zero_n(oe - s);
+//@rw 1 /for r in res\.iter_mut\(\) \{/ => for k__ in itk: 0..(oe - s) invariant res@.len() == oe - s, s <= oe, (forall|q: int| k__ <= q < res@.len() ==> (#[trigger] res@[q])@ == f_zero()), cw0 == cw@, cw@ == old(cw)@, s <= ie <= cw0.len(), x@ == f_from_nat((k__ + 1) as nat), forall|q: int| 0 <= q < k__ ==> (#[trigger] res@[q])@ == rs_h(cw0, f_from_nat((q + 1) as nat), s as int, ie as int), { let mut r__: Fr = res[k__];
+//@rw 1 /\*r \*= x;/ => r__ *= x;
+//@rw 1 /\*r \+= cw\[j\];/ => r__ += cw[j];
+//@rw 1 /x \+= F::one\(\);/ => res.set(k__, r__); proof { ax_from_nat_succ((k__ + 1) as nat); } x += Fr::one();
+//@rw 1 /cw\[s\.\.oe\]\.copy_from_slice\(&res\);/ => copy_into(cw, s, oe, &res);
+//@after start
+    let ghost cw0 = cw@;
+//@after /let mut x = F::one\(\);/
+    proof { ax_from_nat_zero(); ax_from_nat_succ(0); ax_add_comm(f_zero(), f_one()); ax_add_zero(f_one()); }
+//@loop 2 kw=for name=itj
+            invariant cw0 == cw@, s <= ie <= cw0.len(), r__@ == rs_h(cw0, x@, ie - itj.index@, ie as int), itj.index@ <= ie - s, k__ < res@.len(),
+//@end
